@@ -203,6 +203,17 @@ def lsp_and_cli(ctx, vh, ws):
                 if got != exp_locs:
                     ctx.violation({"kind": "references-from-definition", "def": strip_root(list(D), root)},
                                   {"expected": strip_root(exp_locs, root), "got": strip_root(got, root)}, files=ws.files)
+                # references requested from a usage that resolves to D = references requested from D's name
+                us = [u_ for u_ in exp_all if not (u_[0] == d["file"] and u_[1] == d["line"])][:2]
+                for (uf, ul, us_, ue) in us:
+                    r2 = srv.references(uf, ul - 1, us_)
+                    got2 = sorted((uri_to_path(x["uri"]), x["range"]["start"]["line"], x["range"]["start"]["character"],
+                                   x["range"]["end"]["character"]) for x in (r2.get("result") or []))
+                    ctx.judged()
+                    if got2 != got:
+                        ctx.violation({"kind": "references-from-usage-differ-from-references-from-definition", "def": strip_root(list(D), root),
+                                       "usage": strip_root([uf, ul, us_], root)},
+                                      {"from_usage": strip_root(got2, root), "from_definition": strip_root(got, root)}, files=ws.files)
                 # incoming calls
                 pr = srv.prepare_call_hierarchy(d["file"], d["line"] - 1, d["start_char"])
                 items = pr.get("result") or []
